@@ -3,3 +3,4 @@ import SweepG.Quire8
 import SweepG.Sample
 import SweepG.Poly
 import SweepG.Px
+import SweepG.Mono
